@@ -7,7 +7,13 @@ Abstract ops (JSON lists):
   ["set", arg, kw]            arg: None | dict | {"__bad__": scalar}; kw: list of [key, value]
   ["upd", dict]               update_defaults
   ["refresh", [dict, ...]]    refresh with these yaml files present in the config directory
-  ["with", arg, kw, body]     `with set(arg, **kw): body` (body: list of set/upd/refresh ops)
+  ["with", arg, kw, body]     `with set(arg, **kw): body` (body: list of set/upd/refresh ops,
+                              each statement in its own try/except)
+  ["withx", arg, kw, body]    the same, but the first exception raised by a body statement leaves
+                              the with-block (through __exit__); body may end with ["raise"]
+  ["raise"]                   (inside a withx body) `raise TypeError`
+  ["update", old, new, prio, defaults]   direct call update(old, new, priority=prio, defaults=defaults)
+  ["merge", [dict, ...]]      direct call merge(*dicts)
 """
 from __future__ import annotations
 
@@ -123,12 +129,15 @@ def csop(o) -> str:
         return "(SUpd %s)" % citems(o[1])
     if o[0] == "refresh":
         return "(SRefresh [%s])" % "; ".join(citems(y) for y in o[1])
+    if o[0] == "raise":
+        return "(SSet (Some (Leaf JNone)) [])"      # a statement that raises TypeError and changes nothing
     raise ValueError(o)
 
 
 def cop(o) -> str:
-    if o[0] == "with":
-        return "(With %s %s [%s])" % (carg(o[1]), citems(o[2]), "; ".join(csop(b) for b in o[3]))
+    if o[0] in ("with", "withx"):
+        return "(%s %s %s [%s])" % ("With" if o[0] == "with" else "WithX", carg(o[1]), citems(o[2]),
+                                    "; ".join(csop(b) for b in o[3]))
     return "(Do %s)" % csop(o)
 
 
@@ -241,8 +250,17 @@ class Impl:
 
     def sop(self, o):
         """one plain statement; returns the outcome (None | error kind)"""
-        C = self.C
         try:
+            self.sop_raise(o)
+            return None
+        except Exception as e:  # noqa
+            return classify(e)
+
+    def sop_raise(self, o):
+        C = self.C
+        if True:
+            if o[0] == "raise":
+                raise TypeError("raised by the body of the with-block")
             if o[0] == "set":
                 self.make_set(o[1], o[2])
             elif o[0] == "upd":
@@ -257,15 +275,12 @@ class Impl:
                     C.refresh(config=self.config, defaults=self.defaults, path=self._yaml_dir(o[1]))
             else:
                 raise ValueError(o)
-            return None
-        except Exception as e:  # noqa
-            return classify(e)
 
     def op(self, o, observe):
         """one op; `observe(outcome)` is called after every statement (enter, body, exit).
         Returns the list of observations."""
         obs = []
-        if o[0] != "with":
+        if o[0] not in ("with", "withx"):
             obs.append(observe(self.sop(o)))
             return obs
         try:
@@ -277,7 +292,15 @@ class Impl:
             with cm:
                 obs.append(observe(None))
                 for b in o[3]:
-                    obs.append(observe(self.sop(b)))
+                    if o[0] == "with":
+                        obs.append(observe(self.sop(b)))
+                        continue
+                    try:
+                        self.sop_raise(b)
+                    except Exception as e:  # noqa
+                        obs.append(observe(classify(e)))
+                        raise
+                    obs.append(observe(None))
         except Exception as e:  # noqa
             # raised by the with statement itself or by __exit__
             if not obs:
@@ -301,14 +324,14 @@ def touched_keys(ops, limit=14):
                 ks.append(s)
 
     def visit(o):
-        if o[0] in ("set", "with"):
+        if o[0] in ("set", "with", "withx"):
             arg = o[1]
             if isinstance(arg, dict) and set(arg) != {"__bad__"}:
                 for k in arg:
                     add(k)
             for k, _ in o[2]:
                 add(k.replace("__", "."))
-            if o[0] == "with":
+            if o[0] in ("with", "withx"):
                 for b in o[3]:
                     visit(b)
         elif o[0] == "upd":
